@@ -251,8 +251,11 @@ func decryptSymmetricAEAD(aead cipher.AEAD, ciphertext []byte, nonce []byte, tag
 	}
 
 	// Add the tag at the end of the ciphertext
-	ciphertext = append(ciphertext, tag...)
-	return aead.Open(nil, nonce, ciphertext, associatedData)
+	// Use a new slice: appending to ciphertext would write into the caller's spare capacity
+	sealed := make([]byte, len(ciphertext)+len(tag))
+	copy(sealed, ciphertext)
+	copy(sealed[len(ciphertext):], tag)
+	return aead.Open(nil, nonce, sealed, associatedData)
 }
 
 func encryptSymmetricAESKW(plaintext []byte, algorithm string, key []byte) (ciphertext []byte, err error) {
